@@ -232,7 +232,182 @@ def run_values(case, part):
                 call(part, "parse(text)", lambda: stix2.parse(text, allow_custom=allow), {"kind": "text", "text": text[:60], "allow_custom": allow}, "malformed-text")
 
 
+# ---- (iii) member names: every object node of a valid instance gets one more member with an unusual (but JSON-legal) name -------------------
+NAMES = ["", " ", "1abc", "\u00e9t\u00e9", "a" * 300, "\n", "a.b", "a b", "__proto__", "x_", "custom_properties", "allow_custom", "self", "cls", "kwargs", "interoperability", "_inner", "type\n"]
+
+
+def dict_nodes(x, path=()):
+    if isinstance(x, dict):
+        yield path
+        for k, v in x.items():
+            for p in dict_nodes(v, path + (k,)):
+                yield p
+    elif isinstance(x, list):
+        for i, v in enumerate(x):
+            for p in dict_nodes(v, path + (i,)):
+                yield p
+
+
+def run_names(case, part):
+    env.reset()
+    version, key, label = case["version"], case["key"], case["label"]
+    wrapped = None
+    for k2, l2, i2, w2, loc2 in harness.all_cases(version, keys=[key]):
+        if l2 == label:
+            wrapped = w2
+            break
+    if wrapped is None:
+        raise RuntimeError("generator no longer produces %s %s %s" % (version, key, label))
+    tkey = model.spec(version).key_for_type(wrapped["type"])
+    is_sco = model.spec(version).classes[tkey]["category"] == "observables"
+    part.state((version, key, label, "names"), nontrivial=True)
+    for path in dict_nodes(wrapped):
+        if case.get("node") is not None and list(path) != case["node"]:
+            continue
+        for name in NAMES:
+            if case.get("name") is not None and name != case["name"]:
+                continue
+            for val in (1, {"a": 1}):
+                j = copy.deepcopy(wrapped)
+                harness.locate(j, path)[name] = val
+                where = "top-level" if not path else "nested"
+                for allow in (False, True):
+                    c = dict(case, node=list(path), name=name, allow_custom=allow)
+                    for ename, fn in entries(j, version, allow, is_sco):
+                        call(part, ename, fn, c, "member-name:%s/%s" % ("empty" if name == "" else "argument-name" if name in ("custom_properties", "allow_custom", "self", "cls", "kwargs", "interoperability", "_inner") else "unusual", where))
+
+
+# ---- (iv) places where arbitrary JSON is legal content: nesting depth around and beyond the interpreter's recursion limit -------------------
+DEPTHS = [50, 600, 990, 1500, 5000]
+
+
+def nest(depth, kind):
+    x = "s"
+    for _ in range(depth):
+        x = [x] if kind == "list" else {"k": x}
+    return x
+
+
+def run_depths(case, part):
+    import stix2
+    env.reset()
+    EXT = "extension-definition--3f7f0c5f-5d54-4292-94ea-ec1e1952be1f"
+    TS = "2016-05-12T08:17:27.000Z"
+    gm = [{"marking_ref": "marking-definition--5e57c739-391a-4eb3-b6be-7d15ca92d5ed", "selectors": ["name"]}]
+    bases = {
+        "file-without-id": {"type": "file", "spec_version": "2.1", "name": "f"},
+        "file-with-id": {"type": "file", "spec_version": "2.1", "id": "file--3f7f0c5f-5d54-4292-94ea-ec1e1952be10", "name": "f"},
+        "network-traffic-without-id": {"type": "network-traffic", "spec_version": "2.1", "protocols": ["tcp"], "src_port": 1},
+        "identity": {"type": "identity", "spec_version": "2.1", "id": "identity--3f7f0c5f-5d54-4292-94ea-ec1e1952be11", "created": TS, "modified": TS, "name": "n"},
+        "identity-with-granular-markings": {"type": "identity", "spec_version": "2.1", "id": "identity--3f7f0c5f-5d54-4292-94ea-ec1e1952be11", "created": TS, "modified": TS, "name": "n", "granular_markings": gm},
+        "identity-2.0-with-granular-markings": {"type": "identity", "id": "identity--3f7f0c5f-5d54-4292-94ea-ec1e1952be11", "created": TS, "modified": TS, "name": "n", "identity_class": "individual",
+                                                "granular_markings": gm},
+    }
+    places = {
+        "unregistered-extension-definition-content": lambda b, v: dict(b, extensions={EXT: {"extension_type": "property-extension", "deep": v}}),
+        "unregistered-toplevel-extension-property": lambda b, v: dict(b, deep=v, extensions={EXT: {"extension_type": "toplevel-property-extension"}}),
+        "custom-property": lambda b, v: dict(b, x_deep=v),
+        "external-reference-member": lambda b, v: dict(b, external_references=[{"source_name": "s", "description": v}]) if b["type"] == "identity" else None,
+        "unregistered-type-in-bundle": lambda b, v: {"type": "bundle", "id": "bundle--3f7f0c5f-5d54-4292-94ea-ec1e1952be12", "objects": [b, {"type": "x-unreg", "id": "x-unreg--3f7f0c5f-5d54-4292-94ea-ec1e1952be13", "deep": v}]},
+    }
+    b = bases[case["base"]]
+    version = "2.1" if "spec_version" in b else "2.0"
+    part.state(("depths", case["base"]), nontrivial=True)
+    for pname, put in places.items():
+        if version == "2.0" and "extension" in pname:
+            continue
+        for depth in DEPTHS:
+            for kind in ("dict", "list"):
+                if case.get("place") and (pname, depth, kind) != (case["place"], case["depth"], case["nest"]):
+                    continue
+                j = put(copy.copy(b), nest(depth, kind))
+                if j is None:
+                    continue
+                for allow in (False, True):
+                    c = dict(case, place=pname, depth=depth, nest=kind, allow_custom=allow)
+                    for ename, fn in entries(j, version, allow, b["type"] in ("file", "network-traffic") and j.get("type") != "bundle", text_ok=depth <= 600):
+                        call(part, ename, fn, c, "deep-content/%s/%s" % (pname, "beyond-recursion-limit" if depth >= 990 else "below-recursion-limit"))
+
+
+# ---- (v) a failure must leave NOTHING behind: refused parse of a type, then its registration, then the same parse -------------------------------
+def run_fail_then_register(case, part):
+    import stix2
+    from stix2 import properties as P
+    env.reset()
+    snap = env.registry_snapshot()
+    try:
+        ver, kind = case["version"], case["kind2"]
+        mod = stix2.v20 if ver == "2.0" else stix2.v21
+        name = "x-verif-late-%s" % kind[:3]
+        U = "3f7f0c5f-5d54-4292-94ea-ec1e1952be1"
+        TS = "2016-05-12T08:17:27.000Z"
+        if kind == "object":
+            j = {"type": name, "id": name + "--" + U + "4", "created": TS, "modified": TS, "prop": "v"}
+        else:
+            j = {"type": name, "id": name + "--" + U + "5", "prop": "v"} if ver == "2.1" else {"type": name, "prop": "v"}
+        if ver == "2.1":
+            j["spec_version"] = "2.1"
+        wrap = {"type": "bundle", "id": "bundle--" + U + "6", "objects": [j]} if not (kind == "observable" and ver == "2.0") else \
+            {"type": "observed-data", "id": "observed-data--" + U + "7", "created": TS, "modified": TS, "first_observed": TS, "last_observed": TS, "number_observed": 1, "objects": {"0": j}}
+        if ver == "2.0" and wrap["type"] == "bundle":
+            wrap["spec_version"] = "2.0"
+        part.state(("fail-then-register", ver, kind, case["first"]), nontrivial=True)
+
+        def attempts(stage):
+            out = []
+            for allow in (False, True):
+                if not (kind == "observable" and ver == "2.0"):
+                    out.append(("parse(dict)", allow, lambda allow=allow: stix2.parse(copy.deepcopy(j), allow_custom=allow, version=ver)))
+                    out.append(("parse(text)", allow, lambda allow=allow: stix2.parse(json.dumps(j), allow_custom=allow, version=ver)))
+                out.append(("parse(container)", allow, lambda allow=allow: stix2.parse(copy.deepcopy(wrap), allow_custom=allow, version=ver)))
+                if kind == "observable":
+                    out.append(("parse_observable", allow, lambda allow=allow: stix2.parse_observable(copy.deepcopy(j), allow_custom=allow, version=ver)))
+                if "id" in j:
+                    out.append(("MemoryStore.add", allow, lambda allow=allow: stix2.MemoryStore(allow_custom=allow).add(copy.deepcopy(j), version=ver)))
+            return out
+        # 1. before registration: every entry (the ones selected by case["first"]) fails or yields a plain dict
+        for ename, allow, fn in attempts("before"):
+            if case["first"] != "all" and ename != case["first"]:
+                continue
+            call(part, ename, fn, dict(case, stage="before-registration", allow_custom=allow), "unregistered-type")
+        # 2. registration
+        class Body(object):
+            pass
+        (mod.CustomObject if kind == "object" else mod.CustomObservable)(name, [("prop", P.StringProperty())])(Body)
+        cls = stix2.registry.class_for_type(name, ver)
+        # 3. the same calls must now produce the registered class
+        for ename, allow, fn in attempts("after"):
+            part.evaluations += 1
+            part.transitions += 1
+            c = dict(case, stage="after-registration", entry=ename, allow_custom=allow)
+            try:
+                r = fn()
+            except Exception as e:
+                part.outcome("after-registration:REFUSED")
+                part.violation("C17/failure-left-something-behind/%s" % ename, "a type that was refused before its registration is still refused after it", c, cls.__name__, "%s: %s" % (type(e).__name__, str(e)[:120]))
+                continue
+            if ename == "MemoryStore.add":
+                part.outcome("after-registration:ok")
+                continue
+            inner = r
+            if ename == "parse(container)":
+                inner = r["objects"][0] if wrap["type"] == "bundle" else r["objects"]["0"]
+            if not isinstance(inner, cls):
+                part.outcome("after-registration:NOT-THE-CLASS")
+                part.violation("C17/failure-left-something-behind/%s" % ename, "a type that was parsed before its registration does not resolve to the registered class afterwards", c, cls.__name__, type(inner).__name__)
+            else:
+                part.outcome("after-registration:ok")
+    finally:
+        env.registry_restore(snap)
+
+
 def run_case(case, part):
+    if case.get("kind") == "names":
+        return run_names(case, part)
+    if case.get("kind") == "depths":
+        return run_depths(case, part)
+    if case.get("kind") == "fail-then-register":
+        return run_fail_then_register(case, part)
     if case.get("kind") in ("values",):
         run_values(case, part)
     elif case.get("kind") in ("value", "text"):
@@ -242,7 +417,7 @@ def run_case(case, part):
 
 
 def replay(case, part):
-    c = {k: v for k, v in case.items() if k not in ("entry", "allow_custom")}
+    c = {k: v for k, v in case.items() if k not in ("entry", "allow_custom", "stage")}
     if isinstance(c.get("junk"), list):
         c = {k: v for k, v in c.items() if k not in ("slot", "junk")}
         c["pairs"] = True
@@ -261,9 +436,20 @@ def run(run):
     for i in range(0, len(names), 4):
         cases.append({"kind": "values", "type_values": names[i:i + 4]})
     cases.append({"kind": "values", "type_values": [None, 0, 1.5, True, "", [], {}], "toplevel": True})
+    for version in ("2.0", "2.1"):
+        g = gen.Gen(version)
+        for key in g.top_keys():
+            cases.append({"kind": "names", "version": version, "key": key, "label": "max" if th else "min"})
+    for b in ("file-without-id", "file-with-id", "network-traffic-without-id", "identity", "identity-with-granular-markings", "identity-2.0-with-granular-markings"):
+        cases.append({"kind": "depths", "base": b})
+    for ver in ("2.0", "2.1"):
+        for kind in ("object", "observable"):
+            for first in ("all", "parse(dict)", "parse(text)", "parse(container)", "parse_observable", "MemoryStore.add"):
+                cases.append({"kind": "fail-then-register", "version": ver, "kind2": kind, "first": first})
     run.mode = "DEV (fault enumeration)"
     run.rule = ("every (type, minimal|maximal base, slot, junk value of another JSON kind incl. 600-deep nesting) x allow_custom x entry points%s + every JSON value of depth <= 2 over the "
-                "leaf/key alphabet with every registered type name; states = distinct bases and parser inputs" % ("; all pairs of top-level slots x 5 junk pairs on minimal bases" if th else ""))
+                "leaf/key alphabet with every registered type name; every object node of every %s instance + one member with each of %d unusual names; arbitrary-content places x nesting depths %s; "
+                "sequences refused-parse -> registration -> same parse; states = distinct bases and parser inputs" % ("; all pairs of top-level slots x 5 junk pairs on minimal bases" if th else "", "maximal" if th else "minimal", len(NAMES), DEPTHS))
     run.bound = {"junk_values": len(JUNK) + len(DEEP), "replacements": 2 if th else 1, "entry_points": 6, "bases": 2 * 77}
     run.assumptions += ["instances from the frozen spec model", "only JSON-decodable inputs; nesting that defeats json.loads itself is excluded (deep junk goes through dict forms only)"]
     run.pmap(run_case, cases)
